@@ -643,17 +643,22 @@ impl Vm {
 
     #[cfg(debug_assertions)]
     fn trace_instruction(&self) {
+        if !log::log_enabled!(log::Level::Trace) {
+            return;
+        }
+        // Nothing to show when %ip has run off the end of the code: after an evaluation
+        // finished or failed, a further run() finds no instruction there.
+        let instruction = match self.decompile_one(
+            &mut self.heap.get_at_index(self.ip.0).as_lambda().unwrap().bc[self.ip.1..]
+                .iter()
+                .peekable(),
+        ) {
+            Ok(instruction) => instruction,
+            Err(_) => return,
+        };
         trace!(
             "{:<60} {:>30}",
-            format!(
-                "{}",
-                self.decompile_one(
-                    &mut self.heap.get_at_index(self.ip.0).as_lambda().unwrap().bc[self.ip.1..]
-                        .iter()
-                        .peekable()
-                )
-                .unwrap()
-            ),
+            format!("{}", instruction),
             format!(
                 "%acc={} {} %sp[{}] {} $ep[{}]",
                 self.acc,
